@@ -1013,6 +1013,7 @@ fn contains_v3_3_op(expressions: &[Expression]) -> bool {
                     | Binary::LazyOr
                     | Binary::All
                     | Binary::Any
+                    | Binary::Get
                     | Binary::Ffi(_)
             ),
         })
@@ -1026,7 +1027,10 @@ fn contains_v3_3_predicate(predicate: &Predicate) -> bool {
 fn contains_v3_3_term(term: &Term) -> bool {
     match term {
         Term::Null => true,
-        Term::Set(s) => s.contains(&Term::Null),
+        // arrays and maps are 3.3 terms, wherever they appear
+        Term::Array(_) => true,
+        Term::Map(_) => true,
+        Term::Set(s) => s.iter().any(contains_v3_3_term),
         _ => false,
     }
 }
